@@ -234,6 +234,10 @@ def npTake {α : Type} (v : List α) (idx : List Int) : Py (List α) := idx.mapM
 def npCumsum (v : List Rat) : List Rat :=
   (v.foldl (fun (acc : List Rat × Rat) x => (acc.1 ++ [acc.2 + x], acc.2 + x)) ([], 0)).1
 
+/-- `np.cumsum(v)` of an integer array -/
+def npCumsumInt (v : List Int) : List Int :=
+  (v.foldl (fun (acc : List Int × Int) x => (acc.1 ++ [acc.2 + x], acc.2 + x)) ([], 0)).1
+
 /-- `np.count_nonzero(v)` -/
 def npCountNonzero (v : List Rat) : Int := ((v.filter (fun x => x != 0)).length : Int)
 
@@ -284,6 +288,16 @@ def npWhere1 (b : List Bool) : List Int :=
 /-- `d[tuple(k)].append(v)` on a `defaultdict(list)` kept as an insertion-ordered association list -/
 def pyGroupAppend (d : List (List Int × List Int)) (k : List Int) (v : Int) : List (List Int × List Int) :=
   if d.any (fun p => p.1 == k) then d.map (fun p => if p.1 == k then (p.1, p.2 ++ [v]) else p) else d ++ [(k, [v])]
+
+/-- `np.convolve(a, v, mode='same')` : the central `max(len a, len v)` entries of the full convolution
+`full[k] = Σ_i a[i]·v[k-i]` (starting at offset `(min(len a, len v) - 1) / 2`); `ValueError` for an empty operand -/
+def npConvolveSame (a v : List Rat) : Py (List Rat) :=
+  if a.length = 0 ∨ v.length = 0 then .error .value else
+  let full : List Rat := (List.range (a.length + v.length - 1)).map (fun k =>
+    ((List.range a.length).map (fun i => if i ≤ k ∧ k - i < v.length then a.getD i 0 * v.getD (k - i) 0 else 0)).sum)
+  let n := max a.length v.length
+  let off := (min a.length v.length - 1) / 2
+  .ok ((full.drop off).take n)
 
 /-- `np.floor(x)` as an integer -/
 def npFloor (x : Rat) : Int := x.floor
